@@ -1274,9 +1274,22 @@ func (g *gen) breakSomething() {
 			switch op {
 			case 3:
 				// a typedef in the chain may be declared in a nested scope user (container) later; here top-level
-				defs = append(defs, S("typedef", names[i], S("type", next(i))))
+				ty := S("type", next(i))
+				if t.Rare(3) {
+					// the link goes through a member of a union (now and then of a union inside a union)
+					ms := []*Stmt{ty, S("type", []string{"string", "int8", "boolean"}[t.Draw(3)])}
+					if t.Coin() {
+						ms[0], ms[1] = ms[1], ms[0]
+					}
+					ty = S("type", "union", ms...)
+					if t.Rare(3) {
+						ty = S("type", "union", S("type", "uint8"), ty)
+					}
+					g.set.Probes["typedef_cycle_link_through_union"] = true
+				}
+				defs = append(defs, S("typedef", names[i], ty))
 			case 4:
-				defs = append(defs, S("identity", names[i], S("base", next(i))))
+				defs = append(defs, S("identity", names[i], S("base", next(i)))) // (this parser allows one base per identity)
 			case 5:
 				defs = append(defs, S("feature", names[i], S("if-feature", next(i))))
 			}
@@ -1294,7 +1307,11 @@ func (g *gen) breakSomething() {
 		if t.Coin() {
 			switch op {
 			case 3:
-				target.Add(S("leaf", g.name("l"), S("type", names[0])))
+				if t.Rare(3) {
+					target.Add(S("leaf", g.name("l"), S("type", "union", S("type", "int8"), S("type", names[0]))))
+				} else {
+					target.Add(S([]string{"leaf", "leaf-list"}[t.Draw(2)], g.name("l"), S("type", names[0])))
+				}
 			case 4:
 				m.Root.Add(S("leaf", g.name("l"), S("type", "identityref", S("base", names[0]))))
 			case 5:
